@@ -567,6 +567,9 @@ class Exec:
             mod, name = self.repo.imports[self.module][n]
             if name is None:
                 return VModule(mod)
+            if (mod, name) == ("sys", "byteorder"):
+                import sys as _sys
+                return VStr.const(_sys.byteorder)       # (the platform the struct layouts are taken from)
             if mod in self.repo.consts and name in self.repo.consts[mod]:
                 return self.eval_const(self.repo.consts[mod][name], mod)
             if name in self.repo.classes:
